@@ -13,6 +13,7 @@ fn main() {
         "verify" => protocol::run_verify(&mut ctx, &args[2..]),
         "kernels" => kernels::run(&mut ctx, &args[2..]),
         "kzg" => kernels::run_kzg(&mut ctx, &args[2..]),
+        "prove" => protocol::run_prove(&mut ctx, &args[2..]),
         "extract" => gadgets::run(&mut ctx, &args[2..]),
         "extract_batch" => gadgets::run_batch(&mut ctx, &args[2..]),
         "prove_gadget" => gadgets::prove(&mut ctx, &args[2..]),
